@@ -902,7 +902,7 @@ def media_table(run, url: str, cache: dict):
     return table
 
 
-def plan(kind: str, sel: int, var: int, run, p: Params, cache: dict) -> Plan | None:
+def plan(kind: str, sel: int, var: int, run, p: Params, cache: dict, focus: str | None = None) -> Plan | None:
     """Choose the response and build the rewrite from what pass 1 fetched.  None = kind not applicable."""
     url = p.url
     fetches = [f for f in _sorted(run.fetches) if f.method == "GET"]
@@ -931,6 +931,12 @@ def plan(kind: str, sel: int, var: int, run, p: Params, cache: dict) -> Plan | N
                 cands.append((rid, f, facts, prev, nxt))
         if not cands:
             return None
+        if focus == "after-refresh":
+            # the first segment a Representation reads in a pass that follows a manifest refresh: its expectations
+            # have to be carried over from the segments kept from the previous manifest
+            late = [c for c in cands if c[1].step >= 2 and (c[3] is None or c[3][1].step < c[1].step)]
+            if late:
+                cands = late
         rid, f, facts, prev, nxt = cands[sel % len(cands)]
         addr = "range"
         if f.range is None:
@@ -1260,7 +1266,7 @@ def check_detect(case, own_pass1: bool = False) -> Outcome:
     cache: dict = {}
     for c in case["corruptions"]:
         try:
-            pl = plan(c["kind"], c["sel"], c["var"], run1, p, cache)
+            pl = plan(c["kind"], c["sel"], c["var"], run1, p, cache, c.get("focus"))
         except NotApplicable:
             pl = None
         if pl is None:
@@ -1309,7 +1315,7 @@ class Accept(Engine):
         return check_accept(case)
 
 
-def steer(case: dict, kind: str) -> dict:
+def steer(case: dict, kind: str, focus: str | None = None) -> dict:
     """Make the first corruption of the list applicable more often (deterministic edit of the case)."""
     from dashlive.server.manifests import manifest_map
     case = dict(case, opts=dict(case["opts"]))
@@ -1319,6 +1325,13 @@ def steer(case: dict, kind: str) -> dict:
             case["opts"]["drm"] = "all"
     if kind == "timeline" and "segmentTimeline" in feats:
         case["opts"]["timeline"] = "1"
+    if focus == "after-refresh" and case["mode"] == "live":
+        # several validate / sleep / refresh cycles, one or two new segments per refresh
+        case["opts"].pop("patch", None)
+        case["opts"]["depth"] = "30"
+        case["opts"]["mup"] = "4" if case["dur_segs"] % 2 else "8"
+        case["clock"] = dict(case["clock"], anchor="now")
+        case["dur_segs"] = 8 + case["dur_segs"]
     if kind == "ast-changed" and case["mode"] == "live":
         case["opts"].pop("patch", None)
         case["opts"]["depth"] = case["opts"].get("depth") if case["opts"].get("depth") in ("12", "14", "18", "26") else "14"
@@ -1341,13 +1354,20 @@ class Detect(Engine):
         app.boot()
         pairs = template_modes()
         live_pairs = [pm for pm in pairs if pm[1] == "live"]
-        corr = st.fixed_dictionaries({"kind": st.sampled_from(KINDS), "sel": st.integers(0, 10**6),
-                                      "var": st.integers(0, 10**4)})
+        plain = st.fixed_dictionaries({"kind": st.sampled_from(KINDS), "sel": st.integers(0, 10**6),
+                                       "var": st.integers(0, 10**4)})
+        focused = st.fixed_dictionaries({"kind": st.sampled_from(["tfdt", "mfhd", "tfdt", "mfhd", "trun-offset", "saio-offset"]),
+                                         "sel": st.integers(0, 10**6), "var": st.integers(0, 10**4),
+                                         "focus": st.just("after-refresh")})
+        corr = st.one_of(plain, plain, plain, focused)
         k = 3
 
         def build(base_any, base_live, cs):
-            base = base_live if cs[0]["kind"] == "ast-changed" else base_any
-            case = steer(base, cs[0]["kind"])
+            focus = cs[0].get("focus")
+            base = base_live if cs[0]["kind"] == "ast-changed" or focus else base_any
+            case = steer(base, cs[0]["kind"], focus)
+            if focus:       # the whole case is built for it
+                cs = [dict(c, focus=focus) if c["kind"] in ("tfdt", "mfhd", "trun-offset", "saio-offset") else c for c in cs]
             case["corruptions"] = cs
             return case
         return st.builds(build, base_case_strategy(pairs, regular=True), base_case_strategy(live_pairs, regular=True),
@@ -1390,6 +1410,14 @@ class Sweep(Engine):
                            "dur_segs": 4 if refresh else 2,
                            "corruptions": [{"kind": kd, "sel": s, "var": vv} for kd in KINDS
                                            for s, vv in ((0, 0), (5, 3))]}
+                    if refresh:
+                        # four or more refreshes with one new segment each; every media corruption aimed at the
+                        # first segment read after a refresh
+                        yield {"stream": "bbb", "template": name, "mode": mode, "opts": dict(o, depth="30", mup="4"),
+                               "clock": c, "dur_segs": 12,
+                               "corruptions": [{"kind": kd, "sel": s, "var": vv, "focus": "after-refresh"}
+                                               for kd in ("tfdt", "mfhd", "trun-offset", "saio-offset")
+                                               for s, vv in ((0, 0), (1, 1), (2, 2), (7, 3))]}
 
     def check(self, case):
         return check_detect(case, own_pass1=True)
